@@ -174,6 +174,8 @@ class Ken3(Obligation):
         self.functions = [self.m.Kenamond3.__init__, self.m.Kenamond3._run]
         self.bounds = 'R, D, detonator position/time, evaluation point symbolic (constructor-admitted, point outside the obstacle)'
         self.timeout_s = 12
+        self.congruence = True
+        self.congruence_budget_s = 20
         self.timeout_thorough_s = 900
 
     def build(self, mk):
@@ -199,6 +201,41 @@ class Ken3(Obligation):
         D, R = cx['_D'], cx['_R']
         bt, td = cx['burntime'], cx['_td']
         de, ee, dd = cx['_de'], cx['_ee'], cx['_dd']
+        # two geometric lemmas about the square roots that the derivative of arccos introduces (each proved by the solver
+        # first, then available to the eikonal claim):  sin(beta) = l_bp/l_op  and  |grad cos(alpha)|^2 = sin^2(alpha)/l_op^2
+        g = self.geom
+        xs = [cx.p(c) for c in COORDS[:g]]
+        ds = [cx.p('d' + c) for c in COORDS[:g]]
+        lop2 = sum(x * x for x in xs[1:]) + xs[0] * xs[0] if False else None
+        lop2 = xs[0] * xs[0]
+        for x in xs[1:]:
+            lop2 = lop2 + x * x
+        lod2 = ds[0] * ds[0]
+        for d_ in ds[1:]:
+            lod2 = lod2 + d_ * d_
+        lop, lod = cx.sqrt(lop2), cx.sqrt(lod2)
+        outside = (lop2 > R * R) if cx.symbolic else bool(lop2 > R * R)
+        if cx.symbolic or lop2 > R * R:
+            lbp = cx.sqrt(lop2 - R * R)
+            u = R / lop
+            cx.lemma('sin(beta) = l_bp/l_op', cx.sqrt(1 - u * u) * lop, lbp)
+
+            def cosa(c):
+                xx = [c.p(k) for k in COORDS[:g]]
+                dd_ = [c.p('d' + k) for k in COORDS[:g]]
+                dot = xx[0] * dd_[0]
+                l2, m2 = xx[0] * xx[0], dd_[0] * dd_[0]
+                for a_, b_ in zip(xx[1:], dd_[1:]):
+                    dot = dot + a_ * b_
+                    l2 = l2 + a_ * a_
+                    m2 = m2 + b_ * b_
+                return -dot / (c.sqrt(m2) * c.sqrt(l2))
+            gc2 = 0
+            for k in COORDS[:g]:
+                gk = cx.d(cosa, k)
+                gc2 = gc2 + gk * gk
+            ca = cosa(cx)
+            cx.lemma('|grad cos(alpha)|^2 l_op^2 = 1 - cos^2(alpha)', gc2 * lop2, 1 - ca * ca)
         cx.eq('eikonal |grad bt|^2=1/D^2', grad2(cx, f, self.geom) * D * D, 1, tol=1e-4)
         cx.ge('bt>=t_d', bt, td)
         # first arrival: never earlier than the straight-line time, and strictly later when the straight
